@@ -416,3 +416,22 @@ def c15(run):
     run.cov['rule'] = ('ECDSA keys from chosen scalars (small, and with leading zero bytes) on the 3 curves x {as built, with fixed-length x,y, with zero-stripped x,y, wrong x, wrong y, CBOR round trip}: ToPublicKey, NewSigner compared with the model; public keys {fixed, stripped, compressed, compressed+stripped, other sign bit}: NewVerifier compared, signature verified; '
                        'Ed25519 {as built, with x, wrong x, with key_ops}; generated ECDH keys on 4 curves, symmetric keys of the 24 algorithms through the registry; derived keys, Verifier.Key() and Verifiers.KeySet() inspected for private or unexpected parameters; KeyToPrivate / KeyFromPrivate / KeyToPublic / KeyFromPublic inverses; emitted coordinate lengths')
     return D.finish(run, 'proof')
+
+
+@check('C07')
+def c07(run):
+    run.trusted += MSG_TRUST + ['translator inventories Gen/ApiGen.v (exported API with the documented-to-panic naming rule; every index / slice / assertion / dereference / explicit panic / Must- call site)',
+                                'stream nopanic: panics are caught per call; memory by runtime.MemStats.TotalAlloc, time by wall clock, with generous constants (64 MiB + 4 KiB per input byte, 5 s)']
+    run.assumptions += ['the AEAD primitive itself does not panic (hypothesis of C07_decrypt_never_panics; proved for the library\'s CCM in C12, Go\'s GCM / ChaCha20-Poly1305 observed)',
+                        'time and memory proportional to the input: observed by the nopanic stream only (the models are total by construction, which says nothing about running time)',
+                        'nil receivers, nil maps and conversions from Go\'s own key objects are outside the property']
+    D.prove(run, extra_targets=['Model/NoPanic.vo'])
+    rc, o = D.harness_build()
+    if rc != 0:
+        run.broke('harness build', o[-1500:])
+    else:
+        D.correspond(run, 'nopanic', [], reference_theorem='C07_* (coverage of the API inventory by the driven entry points)')
+        D.correspond(run, 'cbor', [], reference_theorem='C07_decode_never_panics (model of the CBOR library on malformed input)')
+    run.cov['rule'] = ('57 byte-input entry points x {valid encodings of the 6 message kinds, keys of all 24 algorithms + 4 ECDH curves, key set, claims, KDF context, recipient; 6 (thorough 120) mutations of each; 90 odd-shaped well-formed items with null / wrong-typed members at every position; generated items; random bytes; JSON / text inputs; 1 MiB inputs}; '
+                       'every key-to-implementation, conversion and accessor entry point x valid keys with each member replaced by 40 odd values or dropped; all 24 algorithms x argument lengths 0..4096 (thorough 70000) x wrong-size nonces, tags, signatures; coverage of the translator\'s API inventory checked in Coq')
+    return D.finish(run, 'proof')
